@@ -363,8 +363,8 @@ impl E2Run for UdpBind {
 
     fn budget(&self, tier: &Tier) -> (u64, u64) {
         match tier {
-            Tier::Quick => (10_000, 60),
-            Tier::Thorough => (2_000_000, 3000),
+            Tier::Quick => (150_000, 50),
+            Tier::Thorough => (10_000_000, 3000),
         }
     }
 
